@@ -140,3 +140,56 @@ def class_attr_annotation(P, mod, cls, attr):
     if r and r[0] == 'classann':
         return r[4]
     return None
+
+
+def stmt_at(fn_node, line):
+    """innermost statement of fn_node spanning `line`"""
+    best = None
+    for s in ast.walk(fn_node):
+        if isinstance(s, ast.stmt) and s.lineno <= line <= getattr(s, 'end_lineno', s.lineno):
+            if isinstance(s, (ast.If, ast.For, ast.While, ast.Try, ast.With, ast.AsyncWith, ast.AsyncFor) + FuncT):
+                # compound: only its header line counts
+                hdr_end = s.body[0].lineno - 1 if s.body else s.lineno
+                if not (s.lineno <= line <= max(hdr_end, s.lineno)):
+                    continue
+            if best is None or (s.lineno >= best.lineno and getattr(s, 'end_lineno', 0) <= getattr(best, 'end_lineno', 1 << 30)):
+                best = s
+    return best
+
+
+def escape_check(R, oid, entry, allowed, what_entry, require_resolved=True, only=None):
+    """ESC rule: the escape set of `entry` must be a subset of `allowed` (class names; subclasses allowed)."""
+    from ..esc import esc_of, short
+    from ..tables import NEVER_REPORTED
+    P = R.P
+    E = esc_of(P)
+    F = P.func(entry)
+    R.touch(F)
+    S = E.analyze(entry, fine=True)
+    if require_resolved and S.unresolved:
+        raise AnalysisError(f'{oid}: unresolved internal call(s) in the region of {entry}: {sorted(S.unresolved)[:5]}')
+    groups = {}
+    for (exc, (line, last)), w in S.raises.items():
+        if exc in NEVER_REPORTED:
+            continue
+        if any(a in P.supers(exc) for a in allowed):
+            continue
+        if only is not None and not any(a in P.supers(exc) for a in only):
+            continue
+        groups.setdefault((line, exc), []).append(w)
+    clo = E.closure(entry)
+    for q in clo:
+        R.functions.add(q)
+    R.callsites_seen, R.callsites_resolved = E.n_calls, E.n_resolved
+    R.paths_examined += len(S.raises)
+    if not groups:
+        R.ok(oid, f'{entry} :: escape set', F.loc(), f'{what_entry}: no exception class outside {sorted(allowed) or "{}"} escapes; '
+             f'{len(clo)} functions in the call closure, {len(S.raises)} raising sites filtered by handlers')
+        return S
+    for (line, exc), ws in sorted(groups.items()):
+        st = stmt_at(F.node, line)
+        construct = st if st is not None else f'line {line}'
+        R.fail(oid, f'{entry} :: {short(exc)} at {norm(construct)[:70]}', entry, construct,
+               f'{short(exc)} can escape {what_entry} ({len(ws)} raising site(s); e.g. {ws[0][-220:]})',
+               f'{F.path}:{line}', witness=sorted(ws)[:8])
+    return S
